@@ -22,8 +22,10 @@ import (
 	"os/exec"
 	"path/filepath"
 	"sort"
+	"strconv"
 	"strings"
 	"sync"
+	"syscall"
 	"testing"
 	"time"
 
@@ -525,6 +527,14 @@ func TestVerif_C27_Child(t *testing.T) {
 	if os.Getenv("VERIF_C27_CHILD") != "1" {
 		t.Skip("child mode only")
 	}
+	// optional address-space limit (MiB): an allocation whose size comes from file content then fails
+	// at once instead of exhausting the shared machine
+	if mb, _ := strconv.Atoi(os.Getenv("VERIF_CHILD_AS_MB")); mb > 0 {
+		lim := syscall.Rlimit{Cur: uint64(mb) << 20, Max: uint64(mb) << 20}
+		if err := syscall.Setrlimit(syscall.RLIMIT_AS, &lim); err != nil {
+			t.Fatalf("setrlimit: %v", err)
+		}
+	}
 	addr, err := vf27FreeAddr()
 	if err != nil {
 		t.Fatal(err)
@@ -625,11 +635,12 @@ type vf27Child struct {
 	stderr  *bytes.Buffer
 	Starts  int
 	Crashes int
+	Env     []string // extra environment of the child
 }
 
 func (c *vf27Child) start() {
 	cmd := exec.Command(os.Args[0], "-test.run", "^TestVerif_C27_Child$", "-test.timeout", "3600s")
-	cmd.Env = append(os.Environ(), "VERIF_C27_CHILD=1")
+	cmd.Env = append(append(os.Environ(), "VERIF_C27_CHILD=1"), c.Env...)
 	stdin, err := cmd.StdinPipe()
 	if err != nil {
 		c.t.Fatal(err)
